@@ -38,33 +38,28 @@ def write_side(pr):
             out.append(A.bvc(q, "link", "writer_loop_present", False, _fr.REL, open_=True))
             continue
         st = [s for s in w.stores if s[0].startswith("self.__in_out_sheet_transaction_2_row[")]
-        ok = len(st) == 1 and st[0][0] == "self.__in_out_sheet_transaction_2_row[ELT]" and st[0][1] == "row_index + 1" and st[0][2] == ()
+        ok = len(st) == 1 and st[0][0] == "self.__in_out_sheet_transaction_2_row[ELT]" and st[0][1] == f"{w.row_norm} + 1" and st[0][2] == ()
         out.append(A.bvc(q, "link", "stores_the_one_based_row_of_the_element_just_written_unconditionally", ok, _fr.REL, str(st)))
         adv = w.advances[0][2] if w.advances else 0
-        out.append(A.bvc(q, "link", "row_is_stored_before_it_advances_and_cells_use_the_same_row", bool(st) and st[0][3] < adv and all(c[4] == "row_index" for c in w.cells), _fr.REL))
+        out.append(A.bvc(q, "link", "row_is_stored_before_it_advances_and_cells_use_the_same_row", bool(st) and st[0][3] < adv and all(c[4] == w.row_norm for c in w.cells), _fr.REL))
         ident = {c[0]: c[1] for c in w.cells}
         out.append(A.bvc(q, "link", "row_shows_timestamp_and_unique_id_of_that_element", ident.get(1) == "ELT.timestamp" and ident.get(14) == "ELT.unique_id", _fr.REL))
-    ga = A.func_node(pr.tree, _fr.G + "__generate_asset")
-    s = ast.unparse(ga) if ga else ""
-    i, j = s.find("self.__in_out_sheet_transaction_2_row = {}"), s.find("self.__generate_in_table(")
-    out.append(A.bvc(_fr.G + "__generate_asset", "frame", "transaction_link_map_is_reset_per_asset_before_the_tables_are_written", 0 <= i < j, _fr.REL,
+    GA = A.Fn(pr.tree, _fr.G + "__generate_asset")
+    out.append(A.bvc(GA.qual, "frame", "transaction_link_map_is_reset_per_asset_before_the_tables_are_written",
+                     GA.order("self.__in_out_sheet_transaction_2_row = {}", "row_index = self.__generate_in_table(transaction_sheet, computed_data, row_index)"), _fr.REL,
                      "transactions compare by spreadsheet row id, which is unique only within one asset"))
     # no other writer of the map
     mod = pr.tree.modules[_fr.MOD]
     stores = [n for n in ast.walk(mod.tree) if isinstance(n, ast.Subscript) and isinstance(n.ctx, ast.Store) and isinstance(n.value, ast.Attribute) and n.value.attr == "__in_out_sheet_transaction_2_row"]
     out.append(A.bvc(_fr.MOD + "/<module>", "frame", "only_the_three_table_writers_store_into_the_transaction_link_map", len(stores) == 3, _fr.REL, f"{len(stores)} stores"))
     # keys of the link map are internal ids: they must be unique within an asset - sheet rows for parsed transactions, fresh negative ids for artificial ones
-    from props import C11
+    from props import C11, C12
     out += [vc for vc in C11.fee_split(pr) if "_row_is_" in vc.label or "artificial_ids_are_negative_and_fresh" in vc.label]
-    ct = A.func_node(pr.tree, "rp2.ods_parser.parse_ods")
-    cs = ast.unparse(ct) if ct else ""
-    out.append(A.bvc("rp2.ods_parser.parse_ods", "link", "parsed_transactions_get_their_one_based_sheet_row_as_id",
-                     "_create_and_process_transaction(configuration, row_values, current_table_type, i + 1, unfiltered_transaction_sets, artificial_transaction_list)" in cs and
-                     "for i, row in enumerate(input_sheet.rows()):" in cs, "src/rp2/ods_parser.py"))
-    at = pr.tree.modules["rp2.abstract_transaction"]
-    s = ast.unparse(at.tree)
-    out.append(A.bvc("rp2.abstract_transaction.AbstractTransaction.__eq__", "post", "transactions_compare_and_hash_by_internal_id",
-                     "result: bool = self.internal_id == other.internal_id" in s and "return hash(self.internal_id)" in s, at.relpath))
+    out += [vc for vc in C12.structure(pr) if "data_row_is_processed_exactly_once_with_its_sheet_row" in vc.label and vc.kind == "case"]
+    EQ = A.Fn(pr.tree, "rp2.abstract_transaction.AbstractTransaction.__eq__")
+    HS = A.Fn(pr.tree, "rp2.abstract_transaction.AbstractTransaction.__hash__")
+    out.append(A.bvc(EQ.qual, "post", "transactions_compare_and_hash_by_internal_id",
+                     EQ.has("result = self.internal_id == other.internal_id") and HS.has("return hash(self.internal_id)"), "src/rp2/abstract_transaction.py"))
     return out
 
 
@@ -83,20 +78,19 @@ def read_side(pr):
         out.append(A.bvc(q, "link", f"column_{c}_links_to_the_transaction_it_describes", ok and about, _fr.REL, str([x[1] for x in cells])[:300]))
     links = [x for x in w.cells if _fr.TX in x[1]]
     out.append(A.bvc(q, "link", "exactly_the_fifteen_described_columns_carry_links", sorted(x[0] for x in links) == sorted(_fr.DETAIL_LINKED), _fr.REL, str(sorted(x[0] for x in links))))
-    h = A.func_node(pr.tree, _fr.G + "__get_hyperlinked_transaction_value")
-    s = ast.unparse(h) if h else ""
-    out.append(A.bvc(_fr.G + "__get_hyperlinked_transaction_value", "post", "hidden_transaction_gets_no_link",
-                     "row: Optional[int] = self.__get_in_out_sheet_row(transaction)\n    if not row:\n        return value" in s, _fr.REL))
-    tgt = '=HYPERLINK("#{self.get_in_out_sheet_name(transaction.asset)}.a{row}:z{row}"; '
-    out.append(A.bvc(_fr.G + "__get_hyperlinked_transaction_value", "post", "link_targets_the_stored_row_of_that_transactions_in_out_sheet", s.count(tgt) == 2 and s.count("HYPERLINK") == 2, _fr.REL))
-    r = A.func_node(pr.tree, _fr.G + "__get_in_out_sheet_row")
-    s = ast.unparse(r) if r else ""
-    out.append(A.bvc(_fr.G + "__get_in_out_sheet_row", "post", "row_is_the_stored_row_or_none",
-                     "if transaction not in self.__in_out_sheet_transaction_2_row:\n        return None\n    return self.__in_out_sheet_transaction_2_row[transaction]" in s, _fr.REL))
-    n = A.func_node(pr.tree, _fr.G + "get_in_out_sheet_name")
-    out.append(A.bvc(_fr.G + "get_in_out_sheet_name", "post", "sheet_name_is_the_one_the_in_out_sheet_is_created_with",
-                     n is not None and "return _('{} In-Out').format(asset)" in ast.unparse(n) and
-                     "transaction_sheet_name: str = self.get_in_out_sheet_name(asset)" in ast.unparse(A.func_node(pr.tree, _fr.G + "__generate_asset")), _fr.REL))
+    H = A.Fn(pr.tree, _fr.G + "__get_hyperlinked_transaction_value")
+    out.append(A.bvc(H.qual, "post", "hidden_transaction_gets_no_link", H.has("row = self.__get_in_out_sheet_row(transaction)\nif not row:\n    return value"), _fr.REL))
+    tgt = "f'=HYPERLINK(\"#{self.get_in_out_sheet_name(transaction.asset)}.a{row}:z{row}\"; {value})'"
+    tgt2 = "f'=HYPERLINK(\"#{self.get_in_out_sheet_name(transaction.asset)}.a{row}:z{row}\"; \"{value}\")'"
+    n_links = H.src().count("HYPERLINK")
+    out.append(A.bvc(H.qual, "post", "link_targets_the_stored_row_of_that_transactions_in_out_sheet", H.expr(tgt) and H.expr(tgt2) and n_links == 2, _fr.REL))
+    R = A.Fn(pr.tree, _fr.G + "__get_in_out_sheet_row")
+    out.append(A.bvc(R.qual, "post", "row_is_the_stored_row_or_none",
+                     R.has("if transaction not in self.__in_out_sheet_transaction_2_row:\n    return None\nreturn self.__in_out_sheet_transaction_2_row[transaction]") and len(R.node.body) == 2, _fr.REL))
+    N = A.Fn(pr.tree, _fr.G + "get_in_out_sheet_name")
+    GA = A.Fn(pr.tree, _fr.G + "__generate_asset")
+    out.append(A.bvc(N.qual, "post", "sheet_name_is_the_one_the_in_out_sheet_is_created_with",
+                     N.has("return _('{} In-Out').format(asset)") and GA.has("transaction_sheet_name = self.get_in_out_sheet_name(asset)") and GA.has("transaction_sheet = ezodf.Table(transaction_sheet_name)"), _fr.REL))
     return out
 
 
@@ -105,32 +99,32 @@ def summary(pr):
     q = _fr.G + "__generate_gain_loss_detail"
     f, w = _fr.detail_writer(pr)
     if w is not None:
-        body = ast.unparse(w.loop)
-        keep_first = "if gain_loss.taxable_event.timestamp.year != year:\n        self.__tax_sheet_year_2_row.setdefault(_AssetAndYear(asset, gain_loss.taxable_event.timestamp.year), row_index + 1)" in body
+        mt = A._MOD_OF.get(id(f))
+        keep_first = A.has(w.loop, "if gain_loss.taxable_event.timestamp.year != year:\n    self.__tax_sheet_year_2_row.setdefault(_AssetAndYear(asset, gain_loss.taxable_event.timestamp.year), row_index + 1)", mt, scope=w.scope)
         others = [s for s in w.stores if s[0].startswith("self.__tax_sheet_year_2_row[")]
         out.append(A.bvc(q, "link", "first_row_of_a_year_is_kept", keep_first and not others, _fr.REL,
                          "the (asset, year) entry must be written at a change of year and never overwritten: with interleaving years a plain assignment keeps the LAST block's first row"))
+        F = A.Fn(pr.tree, q)
         out.append(A.bvc(q, "link", "year_tracks_the_previous_fractions_year",
-                         "border_style = self.__get_border_style(gain_loss.taxable_event.timestamp.year, year)" in body and "year = border_style.year" in body and
-                         body.find("self.__tax_sheet_year_2_row.setdefault(") < body.find("year = border_style.year"), _fr.REL))
-        bs = A.func_node(pr.tree, _fr.G + "__get_border_style")
-        s = ast.unparse(bs) if bs else ""
-        out.append(A.bvc(_fr.G + "__get_border_style", "post", "returns_the_current_year", "if year == 0:\n        year = current_year\n    if current_year != year:" in s and
-                         "year = current_year\n    return _BorderStyle(year, border_suffix)" in s, _fr.REL))
+                         F.order("border_style = self.__get_border_style(gain_loss.taxable_event.timestamp.year, year)",
+                                 "if gain_loss.taxable_event.timestamp.year != year:\n    self.__tax_sheet_year_2_row.setdefault(ANY, ANY)", "year = border_style.year") and F.has("year = 0"), _fr.REL))
+        BS = A.Fn(pr.tree, _fr.G + "__get_border_style")
+        out.append(A.bvc(BS.qual, "post", "returns_the_current_year",
+                         BS.has("if year == 0:\n    year = current_year\nif current_year != year:\n    border_suffix = '_border'\n    year = current_year\nreturn _BorderStyle(year, border_suffix)"), _fr.REL))
     else:
         out.append(A.bvc(q, "link", "writer_loop_present", False, _fr.REL, open_=True))
     out += [vc for vc in _fr.table_vcs(pr, "__generate_yearly_gain_loss_summary", with_headers=False)]
-    h = A.func_node(pr.tree, _fr.G + "__get_hyperlinked_summary_value")
-    s = ast.unparse(h) if h else ""
-    tgt = '=HYPERLINK("#{self.get_tax_sheet_name(asset)}.a{row}:z{row}"; '
-    out.append(A.bvc(_fr.G + "__get_hyperlinked_summary_value", "post", "links_to_the_stored_first_row_of_asset_and_year_in_that_assets_tax_sheet",
-                     "asset_and_year: _AssetAndYear = _AssetAndYear(asset, year)" in s and "row: int = self.__tax_sheet_year_2_row[asset_and_year]" in s and s.count(tgt) == 2, _fr.REL))
-    ga = A.func_node(pr.tree, _fr.G + "__generate_asset")
-    s = ast.unparse(ga) if ga else ""
-    out.append(A.bvc(_fr.G + "__generate_asset", "link", "detail_table_is_written_before_the_summary_lines_that_link_to_it",
-                     0 <= s.find("self.__generate_gain_loss_detail(") < s.find("self.__generate_yearly_gain_loss_summary("), _fr.REL))
-    out.append(A.bvc(_fr.G + "__generate_asset", "link", "tax_sheet_is_created_with_the_name_links_use",
-                     "output_sheet_name: str = self.get_tax_sheet_name(asset)" in s and "output_sheet: Any = ezodf.Table(output_sheet_name)" in s, _fr.REL))
+    H = A.Fn(pr.tree, _fr.G + "__get_hyperlinked_summary_value")
+    tgt = "f'=HYPERLINK(\"#{self.get_tax_sheet_name(asset)}.a{row}:z{row}\"; {value})'"
+    tgt2 = "f'=HYPERLINK(\"#{self.get_tax_sheet_name(asset)}.a{row}:z{row}\"; \"{value}\")'"
+    out.append(A.bvc(H.qual, "post", "links_to_the_stored_first_row_of_asset_and_year_in_that_assets_tax_sheet",
+                     H.has("asset_and_year = _AssetAndYear(asset, year)") and H.has("row = self.__tax_sheet_year_2_row[asset_and_year]") and H.expr(tgt) and H.expr(tgt2) and H.src().count("HYPERLINK") == 2, _fr.REL))
+    GA = A.Fn(pr.tree, _fr.G + "__generate_asset")
+    out.append(A.bvc(GA.qual, "link", "detail_table_is_written_before_the_summary_lines_that_link_to_it",
+                     GA.order("row_index = self.__generate_gain_loss_detail(output_sheet, asset, computed_data, row_index + 2)",
+                              "return self.__generate_yearly_gain_loss_summary(summary_sheet, asset, computed_data.yearly_gain_loss_list, summary_row_index)"), _fr.REL))
+    out.append(A.bvc(GA.qual, "link", "tax_sheet_is_created_with_the_name_links_use",
+                     GA.has("output_sheet_name = self.get_tax_sheet_name(asset)") and GA.has("output_sheet = ezodf.Table(output_sheet_name)"), _fr.REL))
     return out
 
 
